@@ -242,6 +242,29 @@ func c07SynthFamily(k int) (string, []c07SynthInput) {
 			}
 		}
 		return "v1-header:message-sizes", out
+	case k == 2*len(kinds)+1: // several hard links from a group back to itself / to an ancestor
+		for _, nback := range []int{1, 2, 3, 8} {
+			// root with nback links to itself
+			links := [][]byte{synthLinkInfo()}
+			for j := 0; j < nback; j++ {
+				links = append(links, synthLink(fmt.Sprintf("self%d", j), 48))
+			}
+			out = append(out, c07SynthInput{fmt.Sprintf("back-links:root-to-itself:%d", nback), synthFile([][]byte{synthOHDR(links...)})})
+			// root -> child; child has nback links to the root and nback to itself
+			child := []byte(nil)
+			mk := func(childAddr uint64) ([]byte, []byte) {
+				root := synthOHDR(synthLinkInfo(), synthLink("child", childAddr))
+				cl := [][]byte{synthLinkInfo()}
+				for j := 0; j < nback; j++ {
+					cl = append(cl, synthLink(fmt.Sprintf("up%d", j), 48), synthLink(fmt.Sprintf("me%d", j), childAddr))
+				}
+				return root, synthOHDR(cl...)
+			}
+			root, _ := mk(0)
+			root, child = mk(48 + uint64(len(root)))
+			out = append(out, c07SynthInput{fmt.Sprintf("back-links:child-to-root-and-itself:%d", nback), synthFile([][]byte{root, child})})
+		}
+		return "back-links", out
 	default: // chains of nested groups
 		for _, d := range []int{4, 32, 200, 1000, 4000} {
 			// every group header has the same length except the last (no link)
@@ -261,7 +284,7 @@ func c07SynthFamily(k int) (string, []c07SynthInput) {
 	}
 }
 
-const c07SynthFamilies = 16
+const c07SynthFamilies = 17
 
 // C07SynthWrite writes every structural input into dir (debugging aid).
 func C07SynthWrite(dir string) []string {
